@@ -4,6 +4,7 @@ import (
 	"fmt"
 	"io"
 	"net/http"
+	"sort"
 
 	"github.com/DemoHn/Zn/pkg/common"
 	"github.com/DemoHn/Zn/pkg/exec"
@@ -51,26 +52,29 @@ func buildIncomingRequestBody(req *http.Request) (runtime.Element, error) {
 	return value.NewString(string(body)), nil
 }
 
-func buildIncomingRequest(r *http.Request) (runtime.Element, error) {
-	headerDict := value.NewEmptyHashMap()
-	for k, v := range r.Header {
-		if len(v) > 0 {
-			headerDict.AppendKVPair(value.KVPair{
+// buildSortedDict - build a dictionary from a Go map; keys are added in sorted order so that
+// the key order of the dictionary is reproducible
+func buildSortedDict(items map[string][]string) *value.HashMap {
+	dict := value.NewEmptyHashMap()
+	keys := make([]string, 0, len(items))
+	for k := range items {
+		keys = append(keys, k)
+	}
+	sort.Strings(keys)
+	for _, k := range keys {
+		if v := items[k]; len(v) > 0 {
+			dict.AppendKVPair(value.KVPair{
 				Key:   k,
 				Value: value.NewString(v[0]),
 			})
 		}
 	}
+	return dict
+}
 
-	qsDict := value.NewEmptyHashMap()
-	for k, v := range r.URL.Query() {
-		if len(v) > 0 {
-			qsDict.AppendKVPair(value.KVPair{
-				Key:   k,
-				Value: value.NewString(v[0]),
-			})
-		}
-	}
+func buildIncomingRequest(r *http.Request) (runtime.Element, error) {
+	headerDict := buildSortedDict(r.Header)
+	qsDict := buildSortedDict(r.URL.Query())
 
 	body, err := buildIncomingRequestBody(r)
 	if err != nil {
